@@ -422,11 +422,17 @@ def _pipe_rows(ctx):
         else:
             keep_b, stop_b = prb
             keeps = [b for b in keep_b if b in k.reachable_blocks(pending)]
+            # the registration made earlier in the same call still stands (nothing cleared the slot since): as good as registering now
+            clears0 = set(bb for (bb, i, v) in u.assigns.get('notify_stream_closed', []) if not (v[0] == 'agg' and v[2].endswith('Option::Some')))
+            standing = bool(regs) and all(k.must_pass(0, {pending}, set(regs)) for _ in (0,)) and \
+                not any(cb in k.reachable_blocks(rb) and pending in k.reachable_blocks(cb) for rb in regs for cb in clears0 if cb not in regs)
             # every way from the Pending edge to a "keep polling" answer passes the registration
             if keeps and k.must_pass(pending, set(keeps), set(regs)):
                 out.append(ok(R, key, 'every path from a Pending input to "keep polling" registers notify_stream_closed', fn=k.name))
             elif keeps and not feasible_reach(k, pending, set(keeps), set(regs)):
                 out.append(ok(R, key, 'every feasible path from a Pending input to "keep polling" registers notify_stream_closed', fn=k.name))
+            elif keeps and standing:
+                out.append(ok(R, key, 'the close notifier registered at the start of the poll is still in place when the input turns out Pending (nothing clears it in between)', fn=k.name))
             else:
                 out.append(bad(R, key, 'the producer can go to sleep on a Pending input without leaving its waker in notify_stream_closed: dropping the output stream then wakes nobody and the pipe (input stream, closure, target) stays alive', loc=k.loc(regs[0]), fn=k.name))
             # ... and the same for *every* answer of the input, not only Pending: once the input has been polled with this call's waker the
@@ -441,24 +447,50 @@ def _pipe_rows(ctx):
             if start is None:
                 out.append(undecided(R, key2, 'return of the input poll not found'))
             else:
+                # forward data flow over the poll coroutine: (what this call last did to the slot: nothing yet / registered / cleared,
+                # has the input been polled in this call).  A "keep polling" answer with the input polled and the slot not registered
+                # by this call is the violation.
+                poll_bb = polls[0].bb
+                regs_s, clears_s = set(regs), set(clears)
+                states = {0: {('E', False)}}
+                work = [0]
+                while work:
+                    bb_ = work.pop()
+                    outs = set()
+                    for (slot_, polled_) in states.get(bb_, ()):
+                        if bb_ in regs_s:
+                            slot_ = 'R'
+                        elif bb_ in clears_s:
+                            slot_ = 'C'
+                        if bb_ == poll_bb:
+                            polled_ = True
+                        outs.add((slot_, polled_))
+                    for nx in k.succs(bb_):
+                        if k.blocks[nx]['cleanup']:
+                            continue
+                        cur = states.setdefault(nx, set())
+                        if not outs <= cur:
+                            cur |= outs
+                            work.append(nx)
                 reach = k.reachable_blocks(start)
                 keeps2 = [b for b in keep_b if b in reach]
-                unreg = bool(keeps2) and feasible_reach(k, start, set(keeps2), set(regs))
-                late_clear = None
-                for cb in sorted(clears & set(reach)):
-                    for nx in k.succs(cb):
-                        if nx in set(regs):
-                            continue
-                        if nx in keeps2 or feasible_reach(k, nx, set(keeps2), set(regs)):
-                            late_clear = cb
+                badk = []
+                for kb in keeps2:
+                    for (slot_, polled_) in states.get(kb, ()):
+                        if kb in regs_s:
+                            slot_ = 'R'
+                        if polled_ and slot_ != 'R':
+                            # CFG-reachable: confirm that a feasible path really gets here without a later registration
+                            if feasible_reach(k, start, {kb}, regs_s) or slot_ == 'C':
+                                badk.append((kb, slot_))
                 if not keeps2:
                     out.append(undecided(R, key2, 'no "keep polling" answer is reachable from the input poll'))
-                elif unreg or late_clear is not None:
-                    out.append(bad(R, key2, 'after the input has been polled with this call\'s waker the producer can answer "keep polling" with notify_stream_closed empty%s: an input that keeps the waker it was polled with '
+                elif badk:
+                    out.append(bad(R, key2, 'after the input has been polled with this call\'s waker the producer can answer "keep polling" with notify_stream_closed %s: an input that keeps the waker it was polled with '
                                    '(FuturesUnordered, buffered, select_all do, whatever they answer) then holds the only live waker of the pipe, PipeStream::drop wakes nobody, and input stream and closure are never dropped'
-                                   % (' (cleared after the last registration)' if late_clear is not None and not unreg else ''), loc=k.loc(late_clear if late_clear is not None else regs[0]), fn=k.name))
+                                   % ('cleared by this very call' if badk[0][1] == 'C' else 'not registered by this call'), loc=k.loc(badk[0][0]), fn=k.name))
                 else:
-                    out.append(ok(R, key2, 'every feasible path from the return of the input poll to "keep polling" ends with notify_stream_closed = Some(..)', fn=k.name))
+                    out.append(ok(R, key2, 'whenever the producer answers "keep polling" after polling its input, the last thing this call did to notify_stream_closed was to register its waker', fn=k.name))
     # despawn: every popped thread is joined
     key = 'despawn_threads_if_overloaded|joins-what-it-removed'
     dp = F.fn('desync::Scheduler::despawn_threads_if_overloaded')
